@@ -167,6 +167,11 @@ def run(ctx):
     ctx.cov["translated_spans"] = {k: v for k, v in spans.items() if "crystal" in v["file"]}
     for m in msgs:
         ctx.proof_failures.append(("Gen/Crystals.v", "translator", m))
+    # the translator's own fail-closed self-test (integer division, nested return, lost assignment, new assert! …)
+    st = subprocess.run([sys.executable, os.path.join(VERIF, "tools", "test_rs2coq.py")], capture_output=True, text=True)
+    ctx.cov["translator_selftest"] = st.stdout.count("ok ")
+    if st.returncode != 0:
+        ctx.proof_failures.append(("tools/rs2coq.py", "self-test", "translator self-test failed: " + " | ".join(l for l in st.stdout.splitlines() if l.startswith("FAIL"))[:300]))
     proved = False
     if not msgs:
         proved = prove(ctx, "C01", extra_targets=["Proofs/CaseTac.vo"])
